@@ -89,6 +89,10 @@ class Relay(W.NetPolicy):
         # (since the counters were reset) is forwarded, also re-deliver the (n-back)-th one
         self.redeliver = kw.get("redeliver", {})
         self.qhist = []
+        # late copies of the session's own handshake queries (codec switch, options, fragment size, login, ...) in the
+        # middle of the transfer: {n: [(kind, delay_us), ...]}, kind as classified by proto.classify_query
+        self.hs_qhist = []
+        self.redeliver_hs = kw.get("redeliver_hs", {})
         # late copies of downstream answers: [{"dseq": s, "delays_us": [...]}]: every NULL / PRIVATE answer that carries
         # data of downstream packet s is delivered again after each of the delays
         self.dup_down = kw.get("dup_down", [])
@@ -245,6 +249,16 @@ class Relay(W.NetPolicy):
                 res.append((self.latency + delay, nd, src2, odst,
                             {"redeliver_of": oserial, "newid": bool(newid), "flip": bool(flip),
                              "otherport": bool(otherport), "back": back}))
+        if to_server and self.redeliver_hs:
+            n = self.count["q"] - 1
+            for kind, delay in self.redeliver_hs.get(n, self.redeliver_hs.get(str(n), [])):
+                for _, oserial, (odata, osrc, odst) in reversed(self.hs_qhist):
+                    m0 = D.parse(odata)
+                    if not m0.errors and m0.qd and proto.classify_query(m0.qd[0][0], self.domain).get("kind") == kind:
+                        res.append((self.latency + delay, odata, osrc, odst,
+                                    {"redeliver_of": oserial, "newid": False, "flip": False, "otherport": False,
+                                     "back": -1, "hs": kind}))
+                        break
         if from_server and self.dup_down and dg.data[:3] != proto.RAW_HDR:
             m = D.parse(dg.data)
             if m.qr and m.an and not m.errors and m.an[0].type in (D.T_NULL, D.T_PRIVATE) and len(m.an[0].rdata) > 2:
